@@ -189,9 +189,9 @@ Section SortFacts.
   Lemma sorted_last l : StronglySorted R l -> forall x, In x l -> key x <= key (last l []).
   Proof.
     intros H x Hx. assert (Hne : l <> []) by (intro E0; subst; contradiction).
-    pose proof (app_removelast_last [] Hne) as E.
-    remember (last l []) as lw eqn:Elw in *. remember (removelast l) as rw eqn:Erw in *.
-    clear Elw Erw.
+    assert (Hex : exists rw lw, l = rw ++ [lw] /\ last l [] = lw).
+    { exists (removelast l), (last l []). split; [now apply app_removelast_last | reflexivity]. }
+    destruct Hex as (rw & lw & E & E2). rewrite E2. clear E2.
     subst l. apply in_app_or in Hx. destruct Hx as [Hx|[<-|[]]]; [|lia].
     eapply sorted_app; [exact H | exact Hx | now left].
   Qed.
@@ -239,8 +239,7 @@ Section Retention.
       assert (Hnd : NoDup (del ++ keep)).
       { eapply Permutation_NoDup; [symmetry; exact Hps|]. apply NoDup_filter. exact Hok. }
       assert (Hdisj : forall x, In x del -> ~ In x keep).
-      { intros x Hd Hk. apply NoDup_app_remove_l in Hnd as Hk'.
-        clear -Hnd Hd Hk. induction del as [|y del IH]; [contradiction|].
+      { intros x Hd Hk. clear -Hnd Hd Hk. induction del as [|y del IH]; [contradiction|].
         cbn [app] in Hnd. inversion Hnd as [|? ? Hy Hnd']; subst. destruct Hd as [->|Hd].
         - apply Hy. apply in_or_app. now right.
         - now apply IH. }
